@@ -64,36 +64,61 @@ const MAX_XML_ATTRIBUTES: usize = 512;
 /// The XML parser copies all namespaces that are in scope for every element that declares one more.
 const MAX_XML_NAMESPACES: usize = 512;
 
+/// Limit for the work of joining the pieces of character data of the XML document, relative to its size.
+/// The XML parser joins adjacent text and CDATA pieces by copying everything it has so far for every further piece.
+const MAX_XML_TEXT_JOIN_FACTOR: usize = 64;
+
 /// Maximum number of extensions that can be registered for a new file.
 /// Every extension becomes a namespace declaration and attribute of the XML root element.
 pub const MAX_EXTENSIONS: usize = 250;
 
 /// Linear scan that rejects XML whose shape makes the recursive XML parser overflow the stack
 /// or spend quadratic time, before the parser sees it. Everything else is left to the parser.
-pub fn check_xml_shape(xml: &str) -> Result<()> {
+/// Returns true if the character data of the document is split into so many pieces that
+/// it needs to be joined with `join_text_pieces()` before the parser sees it.
+pub fn check_xml_shape(xml: &str) -> Result<bool> {
+    scan_xml(xml, None)
+}
+
+/// Returns a copy of the XML document with all CDATA sections rewritten as escaped text.
+/// Adjacent pieces of character data become a single piece that way, the content stays the same.
+pub fn join_text_pieces(xml: &str) -> Result<String> {
+    let mut joined = String::with_capacity(xml.len());
+    scan_xml(xml, Some(&mut joined))?;
+    Ok(joined)
+}
+
+fn scan_xml(xml: &str, mut joined: Option<&mut String>) -> Result<bool> {
     let bytes = xml.as_bytes();
     let mut depth = 0_usize;
     let mut namespaces = 0_usize;
+    // Length of the current run of adjacent text and CDATA pieces and the bytes copied to join all runs so far
+    let mut run_length = 0_usize;
+    let mut join_cost = 0_usize;
+    let max_join_cost = MAX_XML_TEXT_JOIN_FACTOR
+        .saturating_mul(bytes.len())
+        .saturating_add(1024 * 1024);
     let mut i = 0;
     while i < bytes.len() {
-        if bytes[i] != b'<' {
-            i += 1;
-            continue;
-        }
         let rest = &xml[i..];
-        // The end markers are searched behind the start markers, "<!-->" does not end a comment
-        if rest.starts_with("<!--") {
-            i += rest[4..].find("-->").map(|p| p + 7).unwrap_or(rest.len());
-        } else if rest.starts_with("<![CDATA[") {
-            i += rest[9..].find("]]>").map(|p| p + 12).unwrap_or(rest.len());
+        let is_cdata = rest.starts_with("<![CDATA[");
+        let next = if bytes[i] != b'<' {
+            // Plain text up to the next markup
+            i + rest.find('<').unwrap_or(rest.len())
+        } else if is_cdata {
+            // The end markers are searched behind the start markers
+            i + rest[9..].find("]]>").map(|p| p + 12).unwrap_or(rest.len())
+        } else if rest.starts_with("<!--") {
+            // "<!-->" does not end a comment
+            i + rest[4..].find("-->").map(|p| p + 7).unwrap_or(rest.len())
         } else if rest.starts_with("<?") {
-            i += rest[2..].find("?>").map(|p| p + 4).unwrap_or(rest.len());
+            i + rest[2..].find("?>").map(|p| p + 4).unwrap_or(rest.len())
         } else if rest.starts_with("<!") {
             // Document type declarations are refused by the parser anyway
-            i += 2;
+            i + 2
         } else if rest.starts_with("</") {
             depth = depth.saturating_sub(1);
-            i += rest.find('>').map(|p| p + 1).unwrap_or(rest.len());
+            i + rest.find('>').map(|p| p + 1).unwrap_or(rest.len())
         } else {
             // Start tag: find its end outside of quoted attribute values and count the attributes
             let mut quote = 0_u8;
@@ -133,10 +158,48 @@ pub fn check_xml_shape(xml: &str) -> Result<()> {
                     ))?
                 }
             }
-            i = end.saturating_add(1).min(bytes.len()).max(i + 1);
+            end.saturating_add(1).min(bytes.len()).max(i + 1)
+        };
+        if bytes[i] != b'<' || is_cdata {
+            // The parser joins every further piece of a run by copying the run
+            if run_length > 0 {
+                join_cost = join_cost.saturating_add(run_length + next - i);
+            }
+            run_length += next - i;
+        } else {
+            run_length = 0;
         }
+        if let Some(joined) = joined.as_mut() {
+            let terminated = is_cdata && next - i >= 12 && xml[i..next].ends_with("]]>");
+            if terminated || bytes[i] != b'<' {
+                // The parser turns the line ends of every piece into line feeds. This is done here already,
+                // a carriage return at the end of one piece must not meet a line feed at the start of the next.
+                let (piece, escape) = if terminated {
+                    (&xml[i + 9..next - 3], true)
+                } else {
+                    (&xml[i..next], false)
+                };
+                let mut chars = piece.chars().peekable();
+                while let Some(c) = chars.next() {
+                    match c {
+                        '\r' => {
+                            if chars.peek() != Some(&'\n') {
+                                joined.push('\n');
+                            }
+                        }
+                        '&' if escape => joined.push_str("&amp;"),
+                        '<' if escape => joined.push_str("&lt;"),
+                        '>' if escape => joined.push_str("&gt;"),
+                        _ => joined.push(c),
+                    }
+                }
+            } else {
+                joined.push_str(&xml[i..next]);
+            }
+        }
+        i = next;
     }
-    Ok(())
+    Ok(join_cost > max_join_cost)
 }
 
 pub fn opt_string(parent_node: &Node, tag_name: &str) -> Result<Option<String>> {
@@ -236,17 +299,31 @@ pub fn opt_transform(parent_node: &Node, tag_name: &str) -> Result<Option<Transf
 }
 
 pub fn gen_string<T: Display>(tag_name: &str, value: &T) -> String {
-    let cdata = escape_cdata(&value.to_string());
-    format!("<{tag_name} type=\"String\"><![CDATA[{cdata}]]></{tag_name}>\n")
+    let value = value.to_string();
+    if value.contains('\r') || value.contains("]]>") {
+        // The sequence `]]>` would end a CDATA section early and XML parsers turn a literal carriage return
+        // into a line feed, also inside CDATA sections. Such strings are written as one piece of escaped text,
+        // a chain of many CDATA sections and character references costs XML parsers quadratic time.
+        let text = escape_text(&value);
+        format!("<{tag_name} type=\"String\">{text}</{tag_name}>\n")
+    } else {
+        format!("<{tag_name} type=\"String\"><![CDATA[{value}]]></{tag_name}>\n")
+    }
 }
 
-/// The sequence `]]>` would end a CDATA section early, so it gets split across two sections.
-pub fn escape_cdata(value: &str) -> String {
-    // XML parsers turn a literal carriage return into a line feed, also inside CDATA sections.
-    // It survives only as character reference, which must be placed between two CDATA sections.
-    value
-        .replace("]]>", "]]]]><![CDATA[>")
-        .replace('\r', "]]>&#13;<![CDATA[")
+/// Escapes a string for the usage as character data of an element outside of CDATA sections.
+fn escape_text(value: &str) -> String {
+    let mut escaped = String::with_capacity(value.len());
+    for c in value.chars() {
+        match c {
+            '&' => escaped += "&amp;",
+            '<' => escaped += "&lt;",
+            '>' => escaped += "&gt;",
+            '\r' => escaped += "&#13;",
+            _ => escaped.push(c),
+        }
+    }
+    escaped
 }
 
 /// Escapes a string for the usage as attribute value inside double quotes.
